@@ -196,7 +196,9 @@ static void sub_solver() {
     long N = vf::tier(540, 5400);
     for (long idx = 0; idx < N; ++idx) {
         if (!vf::selected("solver", idx)) continue;
-        Rng r(vf::case_seed("solver", idx)); std::string fam; Csr<double> A = gen_system(r, fam, idx % 5 == 4), A2 = replacement(A, r);
+        Rng r(vf::case_seed("solver", idx)); std::string fam; Csr<double> A = gen_system(r, fam, idx % 5 == 4);
+        if (vf::thorough() && idx % 60 == 7) { vf::GridSpec g; A = vf::model_problem(r, 3000, 8000, &g); fam = "grid_large"; }   // a few larger systems (several levels)
+        Csr<double> A2 = replacement(A, r);
         int si = (int)(idx % 9), ci = (int)(idx / 9 % 4), ri = (int)r.range(0, 8); bool noprm = idx % 54 == 53;
         Prm p; if (!noprm) { random_amg_params(p, "precond.", r, A.n, ci, ri); random_solver_params(p, r, si); if (r.coin(0.4)) split_to_json(p, r); }
         Case c("solver", idx, J().s("family", fam).n("n", A.n).n("nnz", A.nnz()).bl("null_params", noprm).s("prm", p.show()));
